@@ -40,11 +40,16 @@ META = {
         "update_secondary(new) for position 1 and update_mortar on the old interface, arguments mapped through the "
         "callee signatures. R6: match_1d/match_2d divide the overlap weights by the row grid's volumes for 'averaged' "
         "(row sums one) and by the column grid's volumes for 'integrated' (column sums one); "
-        "match_grids_along_1d_mortar forwards its scaling. Decides these structural clauses; row/column sums, conserved "
+        "match_grids_along_1d_mortar forwards its scaling; both grids' point sets reach the overlap routine through the same "
+        "frame mapping (equal modulo the grid name). R7: index arrays read off the stored entries of a projection matrix and "
+        "used as an entity set are de-duplicated (today violated in match_grids_along_1d_mortar: known finding, a second "
+        "update_primary doubles the row sums). Decides these structural clauses; row/column sums, conserved "
         "totals and the geometric overlaps themselves are numerical and not decided."),
     "rule_text": "one obligation per (accessor | derived field | field assignment x protocol clause | tainted assignment | "
                  "update call | scaling arm)",
     "trusted_base": ["python ast", "sa.core (loader, astutil, cfg)",
+                     "statement calls to private MortarGrid helpers are inlined into their callers; one-line helpers and helper "
+                     "return values are looked through (taint summaries); md-grid methods are read through C24's normaliser",
                      "transparent-operation table (copy/T/tocsc/optimized_compressed_storage/bmat/product keep the kind)"],
     "assumptions": ["R3/R4 are decided for MortarGrid's own methods; writers outside the class (today two functions of "
                     "fracs/wells_3d.py) are enumerated by the thorough-tier sweep and reported as notes, one of them "
@@ -53,7 +58,7 @@ META = {
                     "sparse_array_to_row_col_data returns (rows, cols, data): only `data` carries weights"],
     "technique": "sibling agreement + reaching-definition taint (kind lattice {int, avg}) on a statement CFG",
 }
-MIN_INSTANCES = {"R1": 8, "R2": 8, "R3": 16, "R4": 14, "R5": 3, "R6": 5}
+MIN_INSTANCES = {"R1": 8, "R2": 8, "R3": 16, "R4": 14, "R5": 3, "R6": 7, "R7": 1}
 
 
 # ---------------------------------------------------------------------------------------
@@ -166,7 +171,7 @@ class Fn:
             elif isinstance(s, ast.Expr) and isinstance(s.value, ast.Call):
                 c = s.value
                 if isinstance(c.func, ast.Attribute) and isinstance(c.func.value, ast.Name) and c.func.value.id == name \
-                        and c.func.attr in ("append", "extend", "insert") and c.args:
+                        and c.func.attr in ("append", "extend", "insert", "update", "setdefault") and c.args:
                     out.append((s, "weak", c.args[-1]))
         self._defs[name] = out
         return out
@@ -200,6 +205,83 @@ class Fn:
         for s, k, p in ds:
             out += self.resolve(p, s, depth - 1)
         return out
+
+
+def inline_statement_calls(meths: dict[str, ast.FunctionDef], want, rel: str, rounds: int = 2
+                           ) -> tuple[dict[str, ast.FunctionDef], set[str]]:
+    """Deep copies of the methods in which every *statement* call `self.<m>(...)` with want(m) true is replaced by
+    m's body (parameters substituted, locals renamed).  Returns (methods, names that were inlined somewhere)."""
+    import copy
+    out = {n: copy.deepcopy(f) for n, f in meths.items()}
+    inlined: set[str] = set()
+    counter = [0]
+
+    class Sub(ast.NodeTransformer):
+        def __init__(self, mapping, rename):
+            self.mapping, self.rename = mapping, rename
+
+        def visit_Name(self, n):
+            if n.id in self.rename:
+                return ast.copy_location(ast.Name(id=self.rename[n.id], ctx=n.ctx), n)
+            if n.id in self.mapping and isinstance(n.ctx, ast.Load):
+                return ast.copy_location(copy.deepcopy(self.mapping[n.id]), n)
+            return n
+
+    def expand(owner: ast.FunctionDef, block: list[ast.stmt]) -> list[ast.stmt]:
+        res: list[ast.stmt] = []
+        for s in block:
+            if not isinstance(s, (ast.FunctionDef, ast.ClassDef)):
+                for fld in ("body", "orelse", "finalbody"):
+                    b = getattr(s, fld, None)
+                    if isinstance(b, list) and b and isinstance(b[0], ast.stmt):
+                        setattr(s, fld, expand(owner, b))
+                for h in getattr(s, "handlers", []):
+                    h.body = expand(owner, h.body)
+            c = s.value if isinstance(s, ast.Expr) else None
+            if isinstance(c, ast.Call) and isinstance(c.func, ast.Attribute) and u(c.func.value) == "self" \
+                    and c.func.attr in out and c.func.attr != owner.name and want(c.func.attr):
+                callee = out[c.func.attr]
+                body = [b for b in callee.body if not (isinstance(b, ast.Expr) and isinstance(b.value, ast.Constant))]
+                if body and isinstance(body[-1], ast.Return) and body[-1].value is None:
+                    body = body[:-1]
+                bad = (callee.args.vararg or callee.args.kwarg or any(isinstance(a, ast.Starred) for a in c.args)
+                       or any(k.arg is None for k in c.keywords)
+                       or any(isinstance(n, ast.Return) for b in body for n in walk_local(b)))
+                if bad:
+                    res.append(s)
+                    continue
+                params = [a.arg for a in callee.args.args if a.arg != "self"]
+                defaults = callee.args.defaults
+                mapping: dict[str, ast.expr] = dict(zip(params[len(params) - len(defaults):], defaults)) if defaults else {}
+                mapping.update(dict(zip(params, c.args)))
+                mapping.update({k.arg: k.value for k in c.keywords})
+                if set(params) - set(mapping):
+                    res.append(s)
+                    continue
+                counter[0] += 1
+                assigned = {t.id for b in body for st in [b] + list(stmts_local(b)) for t in assigned_targets(st)
+                            if isinstance(t, ast.Name)}
+                rename = {n: f"_inl{counter[0]}_{n}" for n in assigned}
+                pre = []
+                for pn in assigned & set(params):
+                    pre.append(ast.Assign(targets=[ast.Name(id=rename[pn], ctx=ast.Store())], value=copy.deepcopy(mapping.pop(pn))))
+                new = pre + [Sub(mapping, rename).visit(copy.deepcopy(b)) for b in body]
+                for b in new:
+                    for n in ast.walk(b):
+                        for a in ("lineno", "end_lineno", "col_offset", "end_col_offset"):
+                            setattr(n, a, getattr(s, a, 0))
+                inlined.add(callee.name)
+                res += new
+                continue
+            res.append(s)
+        return res
+
+    for _ in range(rounds):
+        for f in out.values():
+            f.body = expand(f, f.body)
+            ast.fix_missing_locations(f)
+    return out, inlined
+
 
 
 def call_args(call: ast.Call, fdef: ast.FunctionDef, skip_self: bool = True) -> dict[str, ast.expr]:
@@ -267,6 +349,36 @@ NEUTRAL_FUNCS = {"identity", "eye", "ones", "zeros", "empty", "arange", "ones_li
                  "int", "float", "isin", "argsort", "num_sides"}
 MATCH_FUNCS = {"match_1d": 3, "match_2d": 3, "match_grids_along_1d_mortar": 4}   # positional index of `scaling`
 OPAQUE = ("opaque",)
+# method name -> thunk giving the taint of what the method returns (list of per-position tag sets), or None
+CALLEE_SUMMARIES: dict = {}
+
+
+def _make_summary(fd: ast.FunctionDef, rel: str, qual: str):
+    cache: list = []
+
+    def thunk():
+        if cache:
+            return cache[0]
+        cache.append(None)       # recursion guard
+        rets = [r for r in stmts_local(fd) if isinstance(r, ast.Return) and r.value is not None]
+        if not rets:
+            return None
+        ff = Fn(fd, rel, qual)
+        tf = Taint(ff)
+        per: Optional[list] = None
+        for r in rets:
+            vals = r.value.elts if isinstance(r.value, ast.Tuple) else [r.value]
+            tags = [tf.tags(v, r) for v in vals]
+            if per is None:
+                per = tags
+            elif len(per) == len(tags):
+                per = [a | b for a, b in zip(per, tags)]
+            else:
+                per = [set().union(*per, *tags)]
+        cache[0] = per
+        return per
+    return thunk
+
 
 
 class Taint:
@@ -300,8 +412,18 @@ class Taint:
                 if isinstance(sc, ast.Constant) and sc.value is None:
                     return {("scaling", "none")}
                 raise Undecided(f"{f.rel}:{f.qual}: non-literal scaling in {u(e)[:70]}")
+            sck = kwarg(e, "scaling")
+            if sck is not None and cn not in MATCH_FUNCS:
+                # an alias of a matching function (f = match_1d; f(..., scaling="averaged"))
+                if isinstance(sck, ast.Constant) and sck.value in KIND_OF_SCALING:
+                    return {("scaling", KIND_OF_SCALING[sck.value])}
+                raise Undecided(f"{f.rel}:{f.qual}: non-literal scaling in {u(e)[:70]}")
             if cn in NEUTRAL_FUNCS:
                 return set()
+            if isinstance(e.func, ast.Attribute) and u(e.func.value) == "self" and cn in CALLEE_SUMMARIES:
+                summ = CALLEE_SUMMARIES[cn]()
+                if summ is not None:
+                    return set().union(*summ) if summ else set()
             if cn == "sparse_array_to_row_col_data":
                 return set().union(*[self.tags(a, at) for a in e.args]) if e.args else set()
             parts = list(e.args) + [k.value for k in e.keywords]
@@ -365,6 +487,10 @@ class Taint:
                 elif isinstance(val, ast.Call) and call_name(val) == "sparse_array_to_row_col_data":
                     if i == 2:
                         t |= self.tags(val, s)
+                elif isinstance(val, ast.Call) and isinstance(val.func, ast.Attribute) and u(val.func.value) == "self" \
+                        and call_name(val) in CALLEE_SUMMARIES and CALLEE_SUMMARIES[call_name(val)]() is not None \
+                        and len(CALLEE_SUMMARIES[call_name(val)]()) == n:
+                    t |= CALLEE_SUMMARIES[call_name(val)]()[i]
                 else:
                     t |= self.tags(val, s)
         self.busy.discard(key)
@@ -423,6 +549,16 @@ TRANSPARENT_WRAP = {"optimized_compressed_storage", "csc_matrix", "csr_matrix"}
 TRANSPARENT_CONV = {"copy", "tocsc", "tocsr", "tocoo"}
 
 
+_SIMPLE_FUNCS: dict[str, ast.FunctionDef] = {}
+
+
+def _simple_return(fd: ast.FunctionDef) -> Optional[tuple[list[str], ast.expr]]:
+    body = [b for b in fd.body if not (isinstance(b, ast.Expr) and isinstance(b.value, ast.Constant))]
+    if len(body) == 1 and isinstance(body[0], ast.Return) and body[0].value is not None:
+        return [a.arg for a in fd.args.args if a.arg != "self"], body[0].value
+    return None
+
+
 def _single_source(f: Fn, e: ast.expr, at: ast.stmt, n: int = 0, depth: int = 6):
     """(field, number of transposes) if e is one projection field passed through storage wrappers /
     conversions / transposes only; None otherwise."""
@@ -442,6 +578,16 @@ def _single_source(f: Fn, e: ast.expr, at: ast.stmt, n: int = 0, depth: int = 6)
             return _single_source(f, e.func.value, at, n, depth - 1)
         if cn in TRANSPARENT_WRAP and e.args:
             return _single_source(f, e.args[0], at, n, depth - 1)
+        # a one-line helper (method of the class or nested def): look through it
+        fd = None
+        if isinstance(e.func, ast.Attribute) and u(e.func.value) == "self":
+            fd = _SIMPLE_FUNCS.get(e.func.attr)
+        elif isinstance(e.func, ast.Name):
+            fd = next((x for x in ast.walk(f.fn) if isinstance(x, ast.FunctionDef) and x is not f.fn and x.name == e.func.id), None)
+        sr = _simple_return(fd) if fd is not None else None
+        if sr is not None and not e.keywords and len(e.args) == len(sr[0]):
+            from ..core.astutil import subst
+            return _single_source(f, subst(sr[1], dict(zip(sr[0], e.args))), at, n, depth - 1)
         return None
     if isinstance(e, ast.Name):
         r = f.resolve(e, at)
@@ -581,7 +727,7 @@ def _r4(ctx: Ctx, mod, meths: dict, direct: dict) -> None:
             opaque = OPAQUE in t
             fields = sorted(v for tag, v in (z for z in t if z != OPAQUE) if tag == "field")
             scal = sorted(v for tag, v in (z for z in t if z != OPAQUE) if tag == "scaling")
-            if not calls_set:
+            if name == "_init_projections":
                 # initialisation on matching grids: int and avg coincide; each side's pair must stem from one matrix
                 twin = f"_{x}_to_{y}_{SWAP[k]}"
                 ok = set(fields) <= {twin} and not scal
@@ -626,8 +772,17 @@ def _r4(ctx: Ctx, mod, meths: dict, direct: dict) -> None:
 
 def _r5(ctx: Ctx, meths: dict) -> None:
     md = ctx.repo.module(MD)
-    fn = md.func("MixedDimensionalGrid.replace_subdomains_and_interfaces")
     q = "MixedDimensionalGrid.replace_subdomains_and_interfaces"
+    md.func(q)  # anchor
+    # helpers of the md-grid are inlined (C24's normaliser), so an extracted `_rekey_interfaces(...)` is seen in place
+    from .c24 import _normalise_methods
+    norm, _ = _normalise_methods(methods(md.cls("MixedDimensionalGrid")))
+    upd = ("update_primary", "update_secondary", "update_mortar")
+    callers = [n for n, f_ in norm.items() if any(isinstance(c, ast.Call) and isinstance(c.func, ast.Attribute)
+                                                   and c.func.attr in upd for c in walk_local(f_))]
+    if "replace_subdomains_and_interfaces" not in callers:
+        raise AnchorError(f"{MD}:{q}: no mortar update is dispatched from here")
+    fn = norm["replace_subdomains_and_interfaces"]
     f = Fn(fn, MD, q)
     params = [a.arg for a in fn.args.args if a.arg != "self"]
     found = set()
@@ -703,15 +858,31 @@ def _r6(ctx: Ctx) -> None:
         rets = [s for s in stmts_local(fn) if isinstance(s, ast.Return) and s.value is not None]
         if len(rets) != 1:
             raise Undecided(f"{MATCH}:{name}: expected one return")
+        def one(e, at):
+            r = f.resolve(e, at) if isinstance(e, ast.Name) else [e]
+            return r[0] if len(r) == 1 else e
+
         v = rets[0].value
-        while isinstance(v, ast.Call) and isinstance(v.func, ast.Attribute) and v.func.attr in TRANSPARENT_CONV:
-            v = v.func.value
+        for _ in range(4):
+            if isinstance(v, ast.Call) and isinstance(v.func, ast.Attribute) and v.func.attr in TRANSPARENT_CONV:
+                v = v.func.value
+            elif isinstance(v, ast.Name):
+                nv = one(v, rets[0])
+                if nv is v:
+                    break
+                v = nv
+            else:
+                break
+        if isinstance(v, ast.Call) and v.args and isinstance(v.args[0], ast.Name):
+            v.args[0] = one(v.args[0], rets[0])
         if not (isinstance(v, ast.Call) and call_name(v) in ("coo_matrix", "csr_matrix", "csc_matrix") and v.args
                 and isinstance(v.args[0], ast.Tuple) and len(v.args[0].elts) == 2 and isinstance(v.args[0].elts[1], ast.Tuple)
                 and len(v.args[0].elts[1].elts) == 2):
             raise Undecided(f"{MATCH}:{name}: returned matrix is not sparse((w, (rows, cols)), shape=...)")
         w, (row, col) = u(v.args[0].elts[0]), [u(x) for x in v.args[0].elts[1].elts]
         shp = kwarg(v, "shape")
+        if isinstance(shp, ast.Name):
+            shp = one(shp, rets[0])
         if not (isinstance(shp, ast.Tuple) and len(shp.elts) == 2 and all(
                 isinstance(x, ast.Attribute) and x.attr == "num_cells" for x in shp.elts)):
             raise Undecided(f"{MATCH}:{name}: shape is not (<grid>.num_cells, <grid>.num_cells)")
@@ -733,6 +904,8 @@ def _r6(ctx: Ctx) -> None:
                 elif isinstance(s, ast.Assign) and isinstance(s.value, ast.BinOp) and isinstance(s.value.op, ast.Div) \
                         and u(s.targets[0]) == u(s.value.left):
                     tgt, val = u(s.targets[0]), s.value.right
+                if tgt == w and isinstance(val, ast.Name):
+                    val = one(val, s)
                 if tgt == w and isinstance(val, ast.Subscript) and isinstance(val.value, ast.Attribute) \
                         and val.value.attr == "cell_volumes":
                     norm = (s, u(val.value.value), u(val.slice))
@@ -748,6 +921,33 @@ def _r6(ctx: Ctx) -> None:
                       facts={"rows": [rowg, row], "cols": [colg, col], "divides_by": [g, idx]})
             ctx.sample({"rule": "R6", "function": name, "scaling": sc, "divides_by": f"{g}.cell_volumes[{idx}]",
                         "matrix": f"rows {rowg}/{row}, cols {colg}/{col}"})
+        # both tessellations are handed to the overlap routine in one common frame
+        gnew, gold = [a.arg for a in fn.args.args[:2]]
+        isects = [c for c in walk_local(fn) if isinstance(c, ast.Call) and ".intersections." in ("." + (u(c.func)))]
+        if len(isects) != 1 or len(isects[0].args) < 2:
+            raise Undecided(f"{MATCH}:{name}: expected one call into pp.intersections with two point sets")
+        ic = isects[0]
+
+        def one_level(e: ast.expr) -> ast.expr:
+            r = f.resolve(e, f.stmt_of(ic), depth=1) if isinstance(e, ast.Name) else [e]
+            return r[0] if len(r) == 1 else e
+
+        p_new, p_old = one_level(ic.args[0]), one_level(ic.args[1])
+
+        class _Ren(ast.NodeTransformer):
+            def visit_Name(self, n):
+                return ast.copy_location(ast.Name(id=gnew, ctx=n.ctx), n) if n.id == gold else n
+
+        import copy as _copy
+        renamed = u(_Ren().visit(_copy.deepcopy(p_old)))
+        if gnew not in names_in(p_new) or gold not in names_in(p_old):
+            raise Undecided(f"{MATCH}:{name}: point sets `{u(p_new)[:50]}` / `{u(p_old)[:50]}` do not name the two grids")
+        ok = renamed == u(p_new) and gold not in names_in(p_new)
+        ctx.check("R6", ok, mm, name, ic,
+                  f"the point sets of `{gnew}` and `{gold}` must be brought to the common frame by the same mapping (same "
+                  f"centre, same normal/rotation): `{u(p_new)}` vs `{u(p_old)}` differ in more than the grid - a normal computed "
+                  f"per grid has an arbitrary sign, so the old grid may be mirrored before the overlaps are computed",
+                  construct=f"{name}: frames {u(p_new)} | {u(p_old)}", facts={"new": u(p_new), "old": u(p_old)})
     # forwarding of scaling
     fn = mm.func("match_grids_along_1d_mortar")
     if "scaling" not in [a.arg for a in fn.args.args]:
@@ -762,6 +962,71 @@ def _r6(ctx: Ctx) -> None:
                   construct=f"inner {u(c)}", facts={"scaling_arg": u(sc) if sc is not None else None})
 
 
+DEDUP_CALLS = {"unique", "intersect1d", "union1d", "setdiff1d", "set", "frozenset"}
+
+
+def _index_sets(fn: ast.FunctionDef, rel: str, qual: str):
+    """Row/column index arrays unpacked from sparse_array_to_row_col_data(<a grid-to-mortar projection>) and whether every
+    use sees them de-duplicated.  Yields (statement, name, axis, matrix text, raw_uses)."""
+    f = Fn(fn, rel, qual)
+
+    def is_src(c: ast.AST) -> bool:
+        return isinstance(c, ast.Call) and call_name(c) == "sparse_array_to_row_col_data" and bool(c.args) and any(
+            isinstance(n, ast.Attribute) and FIELD_RE.match(n.attr) for n in ast.walk(c.args[0]))
+
+    sites: list[tuple[ast.stmt, ast.Name, int, ast.expr]] = []
+    for s in stmts_local(fn):
+        if isinstance(s, ast.Assign) and is_src(s.value) and isinstance(s.targets[0], ast.Tuple) and len(s.targets[0].elts) == 3:
+            for axis in (0, 1):
+                t = s.targets[0].elts[axis]
+                if isinstance(t, ast.Name) and t.id != "_":
+                    sites.append((s, t, axis, s.value.args[0]))
+    # sparse_array_to_row_col_data(M)[k] used inline
+    for n in walk_local(fn):
+        if isinstance(n, ast.Subscript) and is_src(n.value) and isinstance(n.slice, ast.Constant) and n.slice.value in (0, 1):
+            par = f.pm.get(n)
+            st = f.stmt_of(n)
+            if isinstance(par, ast.Call) and call_name(par) in DEDUP_CALLS:
+                yield st, f"<{u(n)[:40]}>", n.slice.value, u(n.value.args[0]), []
+            elif isinstance(par, ast.Assign) and isinstance(par.targets[0], ast.Name):
+                sites.append((par, par.targets[0], n.slice.value, n.value.args[0]))
+            else:
+                yield st, f"<{u(n)[:40]}>", n.slice.value, u(n.value.args[0]), [n]
+    for s, t, axis, m in sites:
+        if True:
+            raw = []
+            for n in walk_local(fn):
+                if isinstance(n, ast.Name) and n.id == t.id and isinstance(n.ctx, ast.Load):
+                    par = f.pm.get(n)
+                    if isinstance(par, ast.Call) and call_name(par) in DEDUP_CALLS:
+                        continue
+                    st = f.stmt_of(n)
+                    ds, _ = f.reaching(t.id, st)
+                    if any(d[0] is s for d in ds):
+                        raw.append(n)
+            yield s, t.id, axis, u(m), raw
+
+
+def _fields_in(text: str) -> list[str]:
+    return sorted(set(re.findall(r"_(?:primary|secondary|mortar)_to_(?:primary|secondary|mortar)_(?:int|avg)", text)))
+
+
+def _r7(ctx: Ctx) -> None:
+    mm = ctx.repo.module(MATCH)
+    fn = mm.func("match_grids_along_1d_mortar")
+    n = 0
+    for s, name, axis, mat, raw in _index_sets(fn, MATCH, "match_grids_along_1d_mortar"):
+        n += 1
+        ctx.check("R7", not raw, mm, "match_grids_along_1d_mortar", s,
+                  f"`{name}` holds the {'row' if axis == 0 else 'column'} index of every stored entry of {mat} and is then used as "
+                  f"the *set* of old boundary faces without np.unique: once a primary face overlaps more than one mortar cell "
+                  f"(any non-matching primary grid) it is listed several times and its overlaps are counted several times",
+                  construct=f"{'row' if axis == 0 else 'column'} indices of {'/'.join(_fields_in(mat))} used as an entity set without de-duplication",
+                  facts={"raw_uses": len(raw)})
+    if n == 0:
+        raise AnchorError(f"{MATCH}:match_grids_along_1d_mortar: old boundary faces are no longer read from the projection matrix")
+
+
 def run(ctx: Ctx) -> None:
     mod = ctx.repo.module(MG)
     cls = mod.cls("MortarGrid")
@@ -769,13 +1034,31 @@ def run(ctx: Ctx) -> None:
     for need in ("_init_projections", "_set_projections", "update_mortar", "update_secondary", "update_primary", "__init__"):
         if need not in meths:
             raise AnchorError(f"{MG}:MortarGrid.{need} missing")
+    keep = {"_init_projections", "_set_projections", "_check_mappings"}
+    meths, inlined = inline_statement_calls(
+        meths, lambda m: m.startswith("_") and not m.startswith("__") and m not in keep, MG)
+    for n in sorted(inlined):
+        ctx.note(f"helper MortarGrid.{n} is analysed inlined into its callers")
+        meths.pop(n)
+    CALLEE_SUMMARIES.clear()
+    for n_, fd_ in meths.items():
+        if n_.startswith("_") and not n_.startswith("__") and n_ not in keep:
+            CALLEE_SUMMARIES[n_] = _make_summary(fd_, MG, f"MortarGrid.{n_}")
+    _SIMPLE_FUNCS.clear()
+    _SIMPLE_FUNCS.update({n: fd for n, fd in meths.items() if _simple_return(fd) is not None})
     _r1(ctx, mod, meths)
     _r2(ctx, mod, meths)
     direct = _r3(ctx, mod, meths)
     _r4(ctx, mod, meths, direct)
     _r5(ctx, meths)
     _r6(ctx)
+    _r7(ctx)
     if ctx.tier == "thorough":
+        for qn, fdef in mod.functions():
+            for s_, nm, axis, mat, raw in _index_sets(fdef, MG, qn):
+                if raw:
+                    ctx.note(f"sweep: {MG}:{qn}: `{nm}` (entries of {mat}) is used without de-duplication ({len(raw)} uses) - "
+                             f"same multiset hazard as C26-R7, not confirmed with an input here")
         n = 0
         for m in ctx.repo.modules("src/porepy"):
             if m.rel == MG:
@@ -868,6 +1151,8 @@ MUTANTS = [
        "        weights /= old_g.cell_volumes[old_g_ind]\n    elif scaling is None:\n        mask = weights > tol\n        new_g_ind = new_g_ind[mask]\n        old_g_ind = old_g_ind[mask]\n        weights = np.ones_like(new_g_ind)\n    else:",
        "        weights /= new_g.cell_volumes[new_g_ind]\n    elif scaling is None:\n        mask = weights > tol\n        new_g_ind = new_g_ind[mask]\n        old_g_ind = old_g_ind[mask]\n        weights = np.ones_like(new_g_ind)\n    else:",
        "R6", file=MATCH),
+    _m("seed-match2d-projects-old-grid-with-own-normal", "        proj_pts(old_g.nodes, cc, n),\n",
+       "        proj_pts(old_g.nodes, cc, n_old),\n", "R6", file=MATCH),
     _m("along-1d-mortar-hardcodes-scaling", "between_cells = match_1d(g_aux_old, g_aux_new, tol, scaling)",
        "between_cells = match_1d(g_aux_old, g_aux_new, tol, \"averaged\")", "R6", file=MATCH),
 ]
